@@ -119,7 +119,7 @@ def gen_script(rng, solvers=L.SOLVERS, nops=(3, 9), p_mid=0.5, allow_modes=False
     cost = gen_cost(rng, ndim)
     if vector:
         cost = dict(kind="vector", a=[grid(rng, -2, 2) for _ in range(ndim)])
-        cfg.append(dict(op="SetReducer", red=rng.choice(["sum", "max", "sumsq"])))
+        cfg.append(dict(op="SetReducer", red=rng.choice(["sum", "max", "sumsq", "min", "min"])))
     cfg.append(dict(op="SetObjective", cost=cost))
     if rng.random() < 0.6 and kind in ("DE", "DE2"):
         b = box or gen_box(rng, ndim)
